@@ -57,6 +57,13 @@ def surf_sets(tier):
         [dict(pf="swept", nx=3, ny=3, side="left", off=None), dict(pf="twdi", nx=3, ny=3, side="left", off=[5.0, 0.0, 0.7], span=3.0, chord=0.8)],
         [dict(pf="swept", nx=2, ny=5, side="full", off=None), dict(pf="rect", nx=2, ny=5, side="full", off=[5.0, 0.3, 0.7], span=3.0, chord=0.8), dict(pf="twdi", nx=2, ny=5, side="full", off=[-3.0, -0.2, -0.5], span=5.0, chord=1.0)],
     ]
+    # surface parts folded past the vertical (C-wing tip strips, local dihedral 120 deg) and a full-span surface stored from +y to -y
+    out += [
+        [dict(pf="twdi", nx=3, ny=5, side="full", off=None, fold=120.0)],
+        [dict(pf="swept", nx=2, ny=4, side="left", off=None, fold=120.0)],
+        [dict(pf="twdi", nx=3, ny=5, side="full", off=None, rev=True)],
+        [dict(pf="camber", nx=3, ny=5, side="full", off=None, rev=True), dict(pf="rect", nx=2, ny=3, side="full", off=[5.0, 0.3, 0.7], span=3.0, chord=0.8)],
+    ]
     # three surfaces of mixed sizes, the larger chordwise counts in the LAST slots (offset bookkeeping beyond the second surface)
     out += [
         [dict(pf="rect", nx=2, ny=3, side="full", off=None), dict(pf="swept", nx=2, ny=3, side="full", off=[5.0, 0.3, 0.7], span=3.0, chord=0.8), dict(pf="camber", nx=3, ny=5, side="full", off=[-3.0, -0.2, -0.5], span=5.0, chord=1.0)],
@@ -99,6 +106,20 @@ def mesh_of(spec, fam):
         m = m.copy()
         m[:, :, 0] = x0 + dx * np.cos(th) + dz * np.sin(th)
         m[:, :, 2] = z0 - dx * np.sin(th) + dz * np.cos(th)
+    if spec.get("fold"):
+        # C-wing: the outermost panel strip of each tip folded past the vertical (inward-canted, 'fold' degrees of local dihedral)
+        m = m.copy()
+        th = np.radians(spec["fold"])
+        for tip, hinge, sgn in ((0, 1, -1.0), (m.shape[1] - 1, m.shape[1] - 2, 1.0)):
+            if (sym and tip != (0 if spec["side"] == "left" else m.shape[1] - 1)):
+                continue
+            d = m[:, tip] - m[:, hinge]
+            L = np.hypot(d[:, 1], d[:, 2])
+            m[:, tip, 1] = m[:, hinge, 1] + sgn * L * np.cos(th)
+            m[:, tip, 2] = m[:, hinge, 2] + L * np.sin(th)
+    if spec.get("rev"):
+        # the same full-span surface with its spanwise node order reversed (stored from +y to -y)
+        m = m[:, ::-1].copy()
     return m, sym
 
 
